@@ -623,6 +623,9 @@ func (prop) Run(line string) core.Outcome {
 	case len(f) == 3 && f[0] == "peek":
 		return runPeek(f[1], f[2])
 	}
+	if len(f) >= 4 && len(f) <= 6 && f[0] == "gg" {
+		return runGG(line, f[1], f[2:])
+	}
 	if len(f) >= 2 {
 		if o, ok := runStrOp(f); ok {
 			return o
@@ -1086,5 +1089,105 @@ func runPeek(ks, ns string) core.Outcome {
 		o.Failures = append(o.Failures, core.Failure{Case: line, Class: "rejected-request-visible-to-concurrent-reader",
 			What: "while requests that end up rejected were being processed, a concurrent GET /config/ returned " + seen + " instead of " + string(want.body)})
 	}
+	return o
+}
+
+// nestingWriter is the ResponseWriter of GET A in runGG: when the handler hands it the body (its
+// first Write), it first serves complete GETs of the other paths through the same handler, on
+// the same goroutine, and only then looks at the bytes it was given - like a slow client whose
+// response is still being written while other requests come and go.
+type nestingWriter struct {
+	*httptest.ResponseRecorder
+	nested func()
+	done   bool
+}
+
+func (w *nestingWriter) Write(b []byte) (int, error) {
+	if !w.done {
+		w.done = true
+		w.nested()
+	}
+	return w.ResponseRecorder.Write(b)
+}
+
+// runGG: overlapping GETs. Each GET has to answer the value at its own path, with the ETag of the
+// bytes it sends, whatever other reads overlap with it.
+func runGG(line, doc string, hexPaths []string) core.Outcome {
+	tree, ok := parseTree(doc)
+	if !ok {
+		return core.Outcome{Impl: "bad-op"}
+	}
+	var paths []string
+	for _, h := range hexPaths {
+		p, err := core.UnHex(h)
+		if err != nil || !pathOK(p) {
+			return core.Outcome{Impl: "bad-op"}
+		}
+		paths = append(paths, p)
+	}
+	reset()
+	o := core.Outcome{Tags: []string{"gg"}}
+	do("POST", "/config/", []byte(jsonText(tree)), map[string]string{"Content-Type": "application/json"})
+	// what each path answers when it is asked alone
+	alone := make([]response, len(paths))
+	for i, p := range paths {
+		alone[i] = get(p)
+	}
+	serveGET := func(p string, w http.ResponseWriter) {
+		r := httptest.NewRequest("GET", "http://localhost/", nil)
+		r.URL.Path, r.URL.RawPath, r.RequestURI = p, "", p
+		handler.ServeHTTP(w, r)
+	}
+	toResp := func(rec *httptest.ResponseRecorder) response {
+		b, _ := io.ReadAll(rec.Body)
+		return response{status: rec.Code, body: b, etag: rec.Header().Get("Etag")}
+	}
+	over := make([]response, len(paths))
+	done := make(chan struct{})
+	go func() {
+		defer close(done)
+		defer func() {
+			if p := recover(); p != nil {
+				over[0] = response{status: 599, body: []byte(fmt.Sprint("panic: ", p))}
+			}
+		}()
+		// twice: the first round leaves the buffers of the pool where the second finds them
+		for round := 0; round < 2; round++ {
+			w := &nestingWriter{ResponseRecorder: httptest.NewRecorder()}
+			w.nested = func() {
+				for i := 1; i < len(paths); i++ {
+					rec := httptest.NewRecorder()
+					serveGET(paths[i], rec)
+					over[i] = toResp(rec)
+				}
+			}
+			serveGET(paths[0], w)
+			over[0] = toResp(w.ResponseRecorder)
+		}
+	}()
+	select {
+	case <-done:
+	case <-time.After(45 * time.Second):
+		o.Impl = "hung"
+		o.Failures = append(o.Failures, core.Failure{Case: line, Class: "request-hung", What: "overlapping GETs did not return"})
+		return o
+	}
+	var outs []string
+	for i, r := range over {
+		s, _ := showGet(r, &o.Failures)
+		outs = append(outs, s)
+		if r.status != alone[i].status || !bytes.Equal(r.body, alone[i].body) || r.etag != alone[i].etag {
+			o.Failures = append(o.Failures, core.Failure{Class: "overlapping-get-wrong-answer",
+				What: fmt.Sprintf("GET %s, overlapping with GETs of %v, answered status %d ETag %s body %q; asked alone it answers status %d ETag %s body %q",
+					paths[i], paths, r.status, r.etag, r.body, alone[i].status, alone[i].etag, alone[i].body)})
+		}
+		if len(r.body) > 0 {
+			o.Tags = append(o.Tags, "gg:body")
+		}
+	}
+	for i := range o.Failures {
+		o.Failures[i].Case = line
+	}
+	o.Impl = strings.Join(outs, "|")
 	return o
 }
